@@ -409,7 +409,28 @@ struct ShardResult<C> {
     infra: Option<String>,
 }
 
-type Slot<C> = Mutex<Option<(Instant, C)>>;
+/// watchdog slot of a shard: start time and the JSON of the case being evaluated
+type Slot = Mutex<Option<(Instant, String)>>;
+
+thread_local! {
+    static MY_SLOT: RefCell<Option<(Arc<Vec<Slot>>, usize)>> = const { RefCell::new(None) };
+}
+
+/// Marks the start of the evaluation of a case for the watchdog (no-op on threads without a watchdog slot).
+pub fn watch_begin<C: Serialize>(case: &C) {
+    MY_SLOT.with(|m| {
+        if let Some((slots, i)) = m.borrow().as_ref() {
+            *slots[*i].lock().unwrap() = Some((Instant::now(), serde_json::to_string(case).unwrap_or_default()));
+        }
+    });
+}
+pub fn watch_end() {
+    MY_SLOT.with(|m| {
+        if let Some((slots, i)) = m.borrow().as_ref() {
+            *slots[*i].lock().unwrap() = None;
+        }
+    });
+}
 
 fn write_replay<P: Prop>(p: &P, case: &P::Case, failure: Option<&Failure>, opts: &RunOpts, note: &str) -> PathBuf {
     let dir = out_dir().join("replays").join(p.id());
@@ -425,6 +446,17 @@ fn write_replay<P: Prop>(p: &P, case: &P::Case, failure: Option<&Failure>, opts:
         tier: opts.tier.name().to_string(),
         note: note.to_string(),
     };
+    std::fs::write(&path, serde_json::to_string_pretty(&rf).unwrap()).unwrap();
+    path
+}
+
+fn write_replay_json(id: &str, case_json: &str, failure: Option<&Failure>, opts: &RunOpts, note: &str) -> PathBuf {
+    let dir = out_dir().join("replays").join(id);
+    let _ = std::fs::create_dir_all(&dir);
+    let cv: Value = serde_json::from_str(case_json).unwrap_or(Value::Null);
+    let h = str_hash(&cv.to_string());
+    let path = dir.join(format!("{:016x}.json", h));
+    let rf = ReplayFile { property: id.to_string(), case: cv, failure: failure.cloned(), seed: opts.seed, tier: opts.tier.name().to_string(), note: note.to_string() };
     std::fs::write(&path, serde_json::to_string_pretty(&rf).unwrap()).unwrap();
     path
 }
@@ -672,7 +704,7 @@ pub fn run_prop<P: Prop>(p: P, opts: RunOpts) -> i32 {
         }
         None => p.cases(opts.tier),
     };
-    let slots: Arc<Vec<Slot<P::Case>>> = Arc::new((0..nshards).map(|_| Mutex::new(None)).collect());
+    let slots: Arc<Vec<Slot>> = Arc::new((0..nshards).map(|_| Mutex::new(None)).collect());
     let done = Arc::new(AtomicBool::new(false));
 
     // watchdog monitor
@@ -697,7 +729,7 @@ pub fn run_prop<P: Prop>(p: P, opts: RunOpts) -> i32 {
                                 format!("result within {:?}", bound),
                                 format!("no result after {:?}", bound),
                             );
-                            let path = write_replay(&*p, &case, Some(&f), &o, "watchdog trip; confirmed by fresh-process replay before reporting");
+                            let path = write_replay_json(p.id(), &case, Some(&f), &o, "watchdog trip; confirmed by fresh-process replay before reporting");
                             let confirmed = confirm_hang(p.id(), &path, bound);
                             if confirmed {
                                 println!("VIOLATION property={} replay={}", p.id(), path.display());
@@ -730,7 +762,7 @@ pub fn run_prop<P: Prop>(p: P, opts: RunOpts) -> i32 {
         handles.push(
             std::thread::Builder::new()
                 .stack_size(64 << 20)
-                .spawn(move || run_shard(&*p, tier, seed, shard, nshards, cases, &known, &slots[shard]))
+                .spawn(move || run_shard(&*p, tier, seed, shard, nshards, cases, &known, slots, shard))
                 .unwrap(),
         );
     }
@@ -949,10 +981,15 @@ fn run_shard<P: Prop>(
     nshards: usize,
     cases: u64,
     known: &[KnownFinding],
-    slot: &Slot<P::Case>,
+    slots: Arc<Vec<Slot>>,
+    slot_index: usize,
 ) -> ShardResult<P::Case> {
     let sseed = mix(&[seed, str_hash(p.id()), shard as u64]);
     let mut stats = Stats::new(sseed);
+    let watch = p.watchdog().is_some() && std::env::var("VERIF_NO_WATCHDOG").is_err();
+    if watch {
+        MY_SLOT.with(|m| *m.borrow_mut() = Some((slots, slot_index)));
+    }
     // 1. enumerated part
     if let Err((case, f)) = p.enumerate(tier, shard, nshards, &mut stats) {
         if let Some(k) = known_match(known, &f) {
@@ -981,16 +1018,15 @@ fn run_shard<P: Prop>(
     let stats_cell = RefCell::new(stats);
     let failed = Cell::new(false);
     let last_failure: RefCell<Option<Failure>> = RefCell::new(None);
-    let watch = p.watchdog().is_some() && std::env::var("VERIF_NO_WATCHDOG").is_err();
     let res = runner.run(&strategy, |case: P::Case| {
         let mut st = stats_cell.borrow_mut();
         st.frozen = failed.get();
         if watch {
-            *slot.lock().unwrap() = Some((Instant::now(), case.clone()));
+            watch_begin(&case);
         }
         let r = catch(|| p.check(&case, &mut st));
         if watch {
-            *slot.lock().unwrap() = None;
+            watch_end();
         }
         let r = match r {
             Ok(r) => r,
@@ -1120,8 +1156,11 @@ pub fn replay_prop<P: Prop>(p: P, path: &str) -> i32 {
 
 /// Helper for enumerations: evaluates one enumerated case, turning a panic (of the library or of the check)
 /// into a failure of that case instead of tearing the shard down.
-pub fn guarded<C: Clone>(case: &C, f: impl FnOnce() -> Result<(), Failure>) -> Result<(), (C, Failure)> {
-    match catch(f) {
+pub fn guarded<C: Clone + Serialize>(case: &C, f: impl FnOnce() -> Result<(), Failure>) -> Result<(), (C, Failure)> {
+    watch_begin(case);
+    let r = catch(f);
+    watch_end();
+    match r {
         Ok(Ok(())) => Ok(()),
         Ok(Err(fl)) => Err((case.clone(), fl)),
         Err(p) => Err((case.clone(), Failure::new(format!("harness-or-library panic: {}", p), "no panic", p))),
